@@ -37,7 +37,7 @@ ProdCase == /\ Is("prodcase") /\ pending = 0
 \* decodes of an accepted valid parse must succeed and match; decodes of an (out-of-scope) accepted list only need to return
 LibDec == /\ Is("libdec") /\ pending \in {2, -2} /\ (pending = 2 => (Ev.ok /\ Ev.match)) /\ pending' = IF pending = 2 THEN 1 ELSE -1
 RefDec == /\ Is("refdec") /\ pending \in {1, -1} /\ (pending = 1 => (Ev.ok /\ Ev.match)) /\ pending' = 0
-Ref == /\ l <= Len(Tr) /\ Ev.e \in {"rFrame", "rBlock", "rFrameEnd", "rSeq"} /\ l' = l + 1 /\ UNCHANGED pending
+Ref == /\ l <= Len(Tr) /\ Ev.e \in {"rFrame", "rBlock", "rFrameEnd", "rSeq", "dseqskip"} /\ l' = l + 1 /\ UNCHANGED pending
 End == Is("end") /\ pending = 0 /\ UNCHANGED pending
 
 TNext == SeqCase \/ GenCase \/ ProdCase \/ LibDec \/ RefDec \/ Ref \/ End
